@@ -56,6 +56,43 @@ def acl_lines(rng, pre, prows, depth=0):
     return out
 
 
+def negate_some(rng, old, new, pre):
+    out = [list(x) for x in new]
+    have = {r for r, _ in out}
+    for row, ch in old:
+        if rng.random() < 0.5 and pre + " " + row not in have:
+            out = [x for x in out if x[0] != row]
+            out.insert(rng.randint(0, len(out)), [pre + " " + row, []])
+        elif ch and rng.random() < 0.5:
+            for x in out:
+                if x[0] == row:
+                    x[1] = negate_some(rng, ch, x[1], pre)
+    return out
+
+
+def interface_case(rng, c, pre):
+    """interface blocks owned by an ACL rule WITHOUT an explicit %cant_delete (built-in default), with uncovered
+    children on the device and the block absent from (or reduced in) the generator output"""
+    c["ptext"] = "interface *\n    description ~\n    mtu *\n    shutdown\ninterfaces\n    unit *\nsysname *\n"
+    names = ["Eth1", "Vlanif10", "ae0"]
+    rule = rng.choice(["interface", "interface *", "interface ~", "interfaces", "interface  %prio=1"])
+    child = rng.choice(["", "    description ~\n", "    mtu *\n"])
+    c["acl_texts"] = [rule + "\n" + child] + ([rng.choice(["sysname *\n", "interface *\n    shutdown\n"])] if rng.random() < 0.4 else [])
+    c["tagged"] = len(c["acl_texts"]) > 1 or rng.random() < 0.5
+    head = "interfaces" if rule.startswith("interfaces") else None
+    old = []
+    for n in rng.sample(names, rng.randint(1, 3)):
+        row = head or "interface " + n
+        if any(row == r for r, _ in old):
+            continue
+        ch = [[k, []] for k in rng.sample(["description up", "mtu 9000", "shutdown", "unit 0"], rng.randint(0, 3))]
+        old.append([row, ch])
+    new = [[r, [x for x in ch if rng.random() < 0.5]] for r, ch in old if rng.random() < 0.5]
+    if rng.random() < 0.5:
+        new.append(["sysname a", []])
+    c["old"], c["new"] = old, new
+
+
 def gen(desc):
     rng = random.Random(desc["seed"])
     for _ in range(desc["n"]):
@@ -66,6 +103,21 @@ def gen(desc):
         ngen = rng.choice([1, 1, 2, 3])
         c["acl_texts"] = [c06.render(acl_lines(rng, pre, prows)) for _ in range(ngen)]
         c["tagged"] = ngen > 1 or rng.random() < 0.3
+        r = rng.random()
+        if r < 0.2:
+            # the generator prints the explicit negation of a line the device has ("undo shutdown")
+            c["new"] = negate_some(rng, c["old"], c["new"], pre)
+            if rng.random() < 0.7:
+                # real rulebooks know negated lines too (e.g. 'undo ...' rules, catch-all rules): a top-level catch-all
+                c["ptext"] = c["ptext"] + "~\n"
+            if c["old"] and rng.random() < 0.7:
+                # a wildcard rule matches the negated line as written; the line it negates is pinned by another rule
+                w = c["old"][0][0].split(" ")[0]
+                c["acl_texts"] = c["acl_texts"] + [rng.choice(["~  %cant_delete=1\n", "%s ~  %%cant_delete=1\n~\n" % w,
+                                                               "~\n%s  %%cant_delete=1\n" % w])]
+                c["tagged"] = True
+        elif r < 0.35:
+            interface_case(rng, c, pre)
         yield c
 
 
@@ -136,17 +188,37 @@ def covered_path(path, acl_rules):
     return None
 
 
-def acl_status(tree, acl_rules, path=()):
-    """yield (path, covered, cant_delete) for every row whose ancestors are all covered (directly)"""
+def ref_cant_delete(match, refs):
+    """'not deletable' by the REFERENCE reading of the ACL text (explicit %cant_delete flags, else the built-in default
+    for rules starting with 'interface'), looked up through the matched rule's regexp"""
+    from annet.annlib.rbparser import syntax
+    pat = match["attrs"]["direct_regexp"].pattern
+    for row, fls in refs.items():
+        try:
+            if syntax.compile_row_regexp(row).pattern == pat:
+                return all(x for fl in fls for x in fl)
+        except Exception:
+            continue
+    return all(match["attrs"]["cant_delete"])
+
+
+def acl_status(tree, acl_rules, path=(), refs=None):
+    """yield (path, covered, pinned) for every row whose ancestors are all covered.
+    covered = some ACL rule matches the row, as written or as the reverse form (that is the property's notion; apply_acl
+    additionally hides rows whose best match is the reverse form of a cant_delete rule);
+    pinned = EVERY matching rule is marked not deletable ("covered only by rules marked as not deletable")"""
     from annet.annlib import patching
     for row, ch in tree:
-        match, cr = patching.match_row_to_acl(row, acl_rules)
-        if not match or (match["is_reverse"] and all(match["attrs"]["cant_delete"])):
-            # what apply_acl drops: unmatched rows and rows matched only as the negation of a cant_delete rule
+        matches = patching._find_acl_matches(row, acl_rules)
+        if not matches:
             yield path + (row,), False, False
             continue
-        yield path + (row,), True, all(match["attrs"]["cant_delete"])
-        yield from acl_status(ch, cr, path + (row,))
+        pinned = all(ref_cant_delete({"attrs": m[0][0]["attrs"]}, refs) if refs is not None else all(m[0][0]["attrs"]["cant_delete"])
+                     for m in matches)
+        yield path + (row,), True, pinned
+        match, cr = patching._select_match(matches, acl_rules)
+        if match is not None:
+            yield from acl_status(ch, cr, path + (row,), refs)
 
 
 def get(tree, path):
@@ -218,7 +290,10 @@ def oracle(case, r):
             break
     # (b), (c): execute the patch on the full old config
     after = rbgen.to_list(device.apply_cmds(rev, rules, r["paths"], rbgen.to_odict(case["old"])))
-    for path, cov, cd in acl_status(case["old"], acl_rules):
+    refs = {}
+    for (_ind, row), fl in c06.ref_flags(c06.combine(case["acl_texts"], case["tagged"])).items():
+        refs.setdefault(row, []).append(fl)
+    for path, cov, cd in acl_status(case["old"], acl_rules, (), refs):
         sub_old = get(case["old"], path)
         sub_new = get(after, path)
         parent_alive = get(after, path[:-1]) is not None
@@ -230,6 +305,21 @@ def oracle(case, r):
         if not cov:
             if sub_new is None or sub_new != sub_old:
                 sig = "uncovered-row-changed"
+                # a %rewrite row (the row itself or an ancestor): the block's rewrite content is re-sent as a whole,
+                # which drops uncovered rewrite siblings and the uncovered children of the re-sent lines
+                from annet.annlib import patching as _p
+                _rules = rules
+                for i, k in enumerate(path):
+                    _m, _next = _p._match_row_to_rules(k, _rules)
+                    if not _m:
+                        break
+                    if _m["attrs"]["logic"].__name__ == "rewrite" and any(
+                            len(pp) == i + 1 and list(pp[:-1]) == list(path[:i]) and
+                            (lambda mm: mm and mm["attrs"]["logic"].__name__ == "rewrite")(_p._match_row_to_rules(pp[-1], _rules)[0])
+                            for pp in r["paths"]):
+                        sig = "rewrite-block-resent-drops-uncovered-sibling"
+                        break
+                    _rules = _next
                 # same (rule,key) as a covered row of new: the device replaces the line in place
                 from annet.annlib import patching
                 prules = rules
@@ -242,7 +332,7 @@ def oracle(case, r):
                 if ok:
                     m, _ = patching._match_row_to_rules(path[-1], prules)
                     pn = get(case["new"], path[:-1]) or []
-                    if m and any((lambda m2: m2 and m2["raw_rule"] == m["raw_rule"] and m2["key"] == m["key"] and row != path[-1])(
+                    if sig == "uncovered-row-changed" and m and any((lambda m2: m2 and m2["raw_rule"] == m["raw_rule"] and m2["key"] == m["key"] and row != path[-1])(
                             patching._match_row_to_rules(row, prules)[0]) for row, _ in pn):
                         sig = "uncovered-row-shares-slot-with-covered-new-row"
                 out.append(dict(sig=sig, what="row %r is not covered by the ACL but is %s after the patch" % (
